@@ -51,4 +51,27 @@ def run : Calls → List Ev → Calls × Nat
     let rest := run r.1 es
     (rest.1, (if e = .enter ∧ r.2 then 1 else 0) + rest.2)
 
+/-! ### slice bounds of the word and field functions
+
+What the built-ins index a slice of `n` words / fields with, as the guards in front of the indexing
+leave it: `none` = an error value or the empty text is returned before any indexing. -/
+
+/-- `Word(text, index)`: the offset `words[offset]` is read at -/
+def wordOffset (n : Nat) (index : Int) : Option Int :=
+  let offset := if index < 0 then index + n else index
+  if 0 ≤ offset ∧ offset < n then some offset else none
+
+/-- `WordSlice(text, start, end)` (`end = -1` when not given): the bounds of `words[lo:hi]` -/
+def wordSliceBounds (n : Nat) (start stop : Int) : Option (Int × Int) :=
+  if start < 0 then none
+  else if stop > 0 ∧ stop ≤ start then none
+  else if start ≥ n then none
+  else
+    let stop := if stop ≥ n then (n : Int) else stop
+    if stop > 0 then some (start, stop) else some (start, n)
+
+/-- `Field(text, index, separator)`: the index `fields[index]` is read at -/
+def fieldIndex (n : Nat) (index : Int) : Option Int :=
+  if index < 0 then none else if index ≥ n then none else some index
+
 end GoflowModel.Guards
